@@ -69,6 +69,7 @@ class Interp(object):
         self.opaque_calls = {}
         self.loops = {}
         self.exec_sites = set()
+        self.strict_unknown = True
         self.regex_patterns = []
         self.bulk_by_ref_as_exists = True
         self.deadline = None
@@ -1310,6 +1311,19 @@ class Interp(object):
             self.memo[memo_key] = ret
         return ret, out
 
+    def can_have_effect(self, v):
+        if isinstance(v, FnItem):
+            return True
+        if isinstance(v, Ref):
+            return v.mut
+        if isinstance(v, Struct):
+            if v.ty.startswith('closure:'):
+                return True
+            return any(self.can_have_effect(x) for x in v.fields if isinstance(x, V))
+        if isinstance(v, Enum):
+            return any(self.can_have_effect(x) for x in v.fields if isinstance(x, V))
+        return False
+
     def has_mut_ref(self, v, depth=0):
         if isinstance(v, Ref):
             return v.mut
@@ -1597,9 +1611,16 @@ class Interp(object):
         if path in self.local_summaries and path not in self.no_summary:
             ret, st2 = self.local_summaries[path](self, st, fr, t, args)
         elif path in self.fns and (res is None or res.get('local', True)):
+            if self.fns[path].get('kind') == 'Closure' and len(args) == 2 and isinstance(args[1], Struct) \
+                    and args[1].ty in ('tuple', '()') and self.fns[path]['argc'] == 1 + len(args[1].fields):
+                # direct call of a closure: the caller passes (closure, (args,)); the body takes them spread
+                args = [args[0]] + list(args[1].fields)
             ret, st2 = self.call_local(path, args, st)
         else:
             h = self.summaries.get(path)
+            if h is None and res and res.get('trait'):
+                # a specialised impl of a trait method (e.g. slice::Iter::for_each): use the trait method's summary
+                h = self.summaries.get('%s::%s' % (res['trait'], path.rsplit('::', 1)[-1]))
             if h is None:
                 h = self.summary_by_prefix(path)
             if h is None:
@@ -1607,6 +1628,9 @@ class Interp(object):
                 if t['t'] is None:
                     self.panics[(fr.fname, t['at'], path)] = st.pc
                     return None
+                if self.strict_unknown and any(self.can_have_effect(a) for a in args):
+                    raise Undecided('external callee %s has no summary and receives a closure or a mutable reference: its '
+                                    'effect on the analysed state is unknown' % path)
                 d = t['dst']
                 dty = fr.fn['locals'][d['l']] if not d['p'] else None
                 ret, st2 = self.fresh_value('ret%d' % next(self.frame_counter), dty), st
